@@ -22,6 +22,8 @@ func propC15(r *Report, tier string) {
 	ruleTreapItemsImmutable(r, "K6-treap-items-immutable")
 	ruleMossBufAccounting(r, "K12-moss-buffer-accounting")
 	ruleKVGetCopyKeepsEmptyValues(r, "K12-get-copy-keeps-empty-values")
+	ruleOneKVBatchPerIndexBatch(r, "K12-one-kv-batch-per-index-batch")
+	ruleKVGetAbsenceIsNil(r, "K12-kv-get-absence-is-nil")
 	ruleCarryLoopCoversIndexZero(r, "K8-carry-loop-covers-index-zero", func(rel string) bool { return strings.HasPrefix(rel, "index/upsidedown") }, 3)
 	ruleErrorsLookedAt(r, "Kerr-errors-looked-at", func(rel string) bool { return strings.HasPrefix(rel, storeBase) || rel == "index/upsidedown" }, errAllowStores)
 	ruleSuccessorKeepsIncrementedByte(r, "K8-prefix-successor", func(rel string) bool { return strings.HasPrefix(rel, storeBase) }, 1)
